@@ -174,7 +174,8 @@ pub fn prepack_a<A: Alloc, LhsT, RhsT, OutT>(
     alloc: A,
     a: Matrix<LhsT>,
 ) -> PackedAMatrix<LhsT> {
-    let depth_block = depth_block_size::<RhsT>(a.cols(), None);
+    // `max(1)` keeps the blocking arithmetic below well-defined when K is zero.
+    let depth_block = depth_block_size::<RhsT>(a.cols(), None).max(1);
 
     let layout = kernel.packed_a_layout(a, a.rows(), depth_block, None);
     let tail_layout = if !a.cols().is_multiple_of(depth_block) {
@@ -230,7 +231,8 @@ pub fn prepack_b<A: Alloc, LhsT, RhsT, OutT>(
     alloc: A,
     b: Matrix<RhsT>,
 ) -> PackedBMatrix<RhsT> {
-    let depth_block = depth_block_size::<RhsT>(b.rows(), None);
+    // `max(1)` keeps the blocking arithmetic below well-defined when K is zero.
+    let depth_block = depth_block_size::<RhsT>(b.rows(), None).max(1);
 
     let layout = kernel.packed_b_layout(depth_block, b.cols(), None);
     let tail_layout = if !b.rows().is_multiple_of(depth_block) {
